@@ -305,13 +305,16 @@ fn type_items_empty_rule(cx: &Cx, rep: &mut Report) {
             rep.unanalysable(&pf.qual, &ev.unsupported.borrow());
             let mut n_ok = 0;
             let mut bad = Vec::new();
-            for (_, fl) in &outs {
+            for (stp, fl) in &outs {
                 let (Flow::Val(Val::Enum { var, args, .. }) | Flow::Ret(Val::Enum { var, args, .. })) = fl else { continue };
                 if var != "Ok" { continue; }
                 let Some(Val::Struct { fields, .. }) = args.first() else { continue };
                 let Some(iv) = fields.iter().find(|(n, _)| Some(n) == items_f.as_ref()).map(|(_, v)| v) else { bad.push("the set of nested derive_ex entries is not part of the result".to_string()); continue };
                 n_ok += 1;
-                let reads = iv.any(&|y| matches!(y, Val::Sym { path, .. } if path.starts_with("attrs")));
+                // read: the value is computed from the attributes, or entries computed from them are inserted one by one
+                let inserted = stp.events.iter().any(|e| matches!(e, crate::eval::Event::Note(n) if (n.starts_with("mutcall") && n.contains(".insert(") || n.starts_with("loop-begin")) && (n.contains("attrs") || n.rsplit("roots=").next().map(|r| r.split(',').any(|x| x == "attrs")).unwrap_or(false))));
+                if std::env::var("GENLINT_DEBUG_WCB").is_ok() && flag { eprintln!("TI notes {:?}", stp.events.iter().filter_map(|e| if let crate::eval::Event::Note(n) = e { Some(n.chars().take(160).collect::<String>()) } else { None }).collect::<Vec<_>>()); }
+                let reads = inserted || iv.any(&|y| matches!(y, Val::Sym { path, .. } if path.starts_with("attrs")));
                 if reads != flag { bad.push(format!("derive_ex {}: nested entries = {}", if flag { "on" } else { "off" }, iv.short().chars().take(120).collect::<String>())); }
             }
             if std::env::var("GENLINT_DEBUG_WCB").is_ok() { eprintln!("TI flag={flag} n_ok={n_ok} outs={} bad={bad:?}", outs.len()); }
